@@ -146,7 +146,7 @@ func runCase(c Case) *hx.Failure {
 		parseFailed := false
 		fail = hx.Guard(func() {
 			erp := interpreter.NewECALRuntimeProvider("c19", &util.MemoryImportLocator{Files: map[string]string{}}, util.NewNullLogger())
-			defer erp.Cron.Stop()
+			go erp.Cron.Stop() // detached: never wait for it (it can deadlock against the cron tick)
 			var ast *parser.ASTNode
 			if ast, err = parser.ParseWithRuntime("c19", src, erp); err != nil {
 				parseFailed = true
